@@ -15,7 +15,8 @@ func VC04Select() {
 	n, per := vParam("n"), vParam("per")
 	topicSel, idx, ord, spell := vParam("topics"), vParam("idx"), vParam("ord"), vParam("spell")
 	// C04 itself owns the finding about log time 2^64-1, so no exclusion here
-	opts := vOptions(3, 0, int64(32*per-1))
+	// skip: Skip* mask of the writer (1 = no message indexes: topic selection cannot prune chunks then)
+	opts := vOptions(3, vParam("skip"), int64(32*per-1))
 	sink := &vSink{failAt: -1}
 	w, err := NewWriter(sink, opts)
 	vAssert(err == nil, "NewWriter")
